@@ -24,6 +24,7 @@ func propC05() *Property {
 			{ID: "C05.R1", Title: "a deadline from the configured timeout precedes all connection I/O", Floor: 1, Run: c05R1},
 			{ID: "C05.R2", Title: "no error dropped on the fetch path; values used only under err == nil", Floor: 129, Run: c05R2},
 			{ID: "C05.R4", Title: "NewFailure never receives a possibly-nil error", Floor: 18, Run: c05R4},
+			{ID: "C05.R5", Title: "a response head cut off mid-line is never parsed as a line", Floor: 3, Run: wholeLines},
 		},
 	}
 }
